@@ -784,7 +784,16 @@ namespace
       {
         llvm::SmallString<256> buf;
         if (index::generateUSRForDecl(d, buf)) return "";
-        return buf.str().str();
+        std::string u = buf.str().str();
+        // entities of an anonymous namespace / with internal linkage: clang's USR names the file by its base name only,
+        // so `linear.cc` of three model directories collide in a unity translation unit. Qualify by the declaring file.
+        if (u.find("@aN@") != std::string::npos)
+          {
+            PresumedLoc pl = SM.getPresumedLoc(SM.getExpansionLoc(d->getLocation()));
+            if (pl.isValid())
+              u += std::string("|") + pl.getFilename();
+          }
+        return u;
       }
 
       void emit_param_modes(const FunctionDecl *fd)
